@@ -178,7 +178,7 @@ def main():
     for cfg, attr in states:
         if attr["valid"] and featalg.vk_cfg_is_modelled(cfg):
             byfam.setdefault(fam_of(cfg), []).append((cfg, attr))
-    order = []
+    order = [(cfg, attr) for cfg, attr in states if attr["valid"] and cfg["sl"] != "npa" and featalg.vk_cfg_is_modelled(cfg)]
     for fam, lst in sorted(byfam.items()):
         rng.shuffle(lst)
     k = 0
